@@ -299,8 +299,8 @@ register("C01", lean_modules=["FsProofs.Properties.ShapesC01", 'FsModel.PFlood',
          sections={"elev", "update"} | GRAPH_SECTIONS, nontrivial=raised_or_rerouted, tags=tags_flow,
          rule="random grids (raster 3 connectivities/border mixes, profile, mesh) x elevation families (ties, plateaus, zero, subnormal, huge, nested cones) x masks x base-level sets x six resolver variants [+ multi router]; non-trivial = at least one node was raised by the resolver",
          trusted_base=FLOW_TB)
-register("C02", lean_modules=["FsProofs.Properties.ShapesC02", "FsProofs.Properties.ClosedMore", "FsModel.PFlood", "FsProofs.Properties.C02", "FsProofs.Properties.C02MstRouter", "FsProofs.Properties.C02MstExample", "FsProofs.Properties.C02MstUpperExample", "FsProofs.Properties.Closed"],
-         theorems=["Fs.Shapes.source_shape_C02", "Fs.Closed.raster_C02_pflood", "Fs.Closed.raster_C02_mst_upper", "Fs.Closed.raster_C02_mst_spill_level", "Fs.Closed.mesh_C02_mst_upper", "Fs.Closed.sf_ubLaws", "Fs.C02Mst.resolve_c02_upper_singleRouter", "Fs.C02Mst.resolve_c02_spill_level_singleRouter", "Fs.C02Mst.resolve_le_spill", "Fs.C02Mst.low_of_path", "Fs.C02Mst.resolve_newpath_bounded", "Fs.C02Mst.resolve_c02_singleRouter", "Fs.C02Mst.resolve_ge_input", "Fs.C02Mst.resolve_fixed", "Fs.C02Mst.resolve_fixed_above", "Fs.C02Mst.resolve_exact_shape", "Fs.C02Mst.resolve_chain", "Fs.C02Mst.resolve_ge_spill_carve", "Fs.C02Mst.tilt_shape", "Fs.Closed.raster_C02_mst",
+register("C02", lean_modules=["FsProofs.Properties.C02MstBasicExample", "FsProofs.Properties.ClosedBasic", "FsProofs.Properties.ShapesC02", "FsProofs.Properties.ClosedMore", "FsModel.PFlood", "FsProofs.Properties.C02", "FsProofs.Properties.C02MstRouter", "FsProofs.Properties.C02MstExample", "FsProofs.Properties.C02MstUpperExample", "FsProofs.Properties.Closed"],
+         theorems=["Fs.C02Mst.resolve_ge_spill_basic", "Fs.C02Mst.resolve_ge_spill", "Fs.C02Mst.resolve_c02_spill_singleRouter", "Fs.C02Mst.resolve_c02_spill_level_singleRouter_any", "Fs.C02Mst.basic_spill_abstract", "Fs.Closed.raster_C02_mst_spill_level_any", "Fs.Closed.mesh_C02_mst_spill_level_any", "Fs.Closed.profile_C02_mst_spill_level_any", "Fs.Shapes.source_shape_C02", "Fs.Closed.raster_C02_pflood", "Fs.Closed.raster_C02_mst_upper", "Fs.Closed.raster_C02_mst_spill_level", "Fs.Closed.mesh_C02_mst_upper", "Fs.Closed.sf_ubLaws", "Fs.C02Mst.resolve_c02_upper_singleRouter", "Fs.C02Mst.resolve_c02_spill_level_singleRouter", "Fs.C02Mst.resolve_le_spill", "Fs.C02Mst.low_of_path", "Fs.C02Mst.resolve_newpath_bounded", "Fs.C02Mst.resolve_c02_singleRouter", "Fs.C02Mst.resolve_ge_input", "Fs.C02Mst.resolve_fixed", "Fs.C02Mst.resolve_fixed_above", "Fs.C02Mst.resolve_exact_shape", "Fs.C02Mst.resolve_chain", "Fs.C02Mst.resolve_ge_spill_carve", "Fs.C02Mst.tilt_shape", "Fs.Closed.raster_C02_mst",
                    "Fs.C02.pflood_ge_input", "Fs.C02.pflood_fixed", "Fs.C02.pflood_ge_spill", "Fs.C02.pflood_le_spill", "Fs.C02.run_erase", "Fs.C02.ubInit_erase", "Fs.C02.ubInit_inv", "Fs.pflood_parent", "Fs.pflood_complete"], gen=gen_resolved, oracles=[oracle.c02], sections={"elev"}, nontrivial=raised_or_rerouted, tags=tags_flow,
          model_certs={"cert_mst": ("1", "spanning_tree_certificate", "the Lean checker certOk (Fs.C15.certOk_sound) rejects the raw spanning tree used by this resolver run as a minimum-weight spanning forest that keeps the virtual root edges (the tree facts assumed by Fs.C02Mst.resolve_le_of_low)")},
          rule="same scenario family as C01; oracle = independent Bellman minimax spill level; non-trivial = some node raised",
@@ -460,8 +460,8 @@ GRID_SECTIONS = {"grid", "size", "nmax", "status", "area", "area_views_agree", "
 GRID_TB = ["tables of the grid model are regenerated from raster_grid.hpp / profile_grid.hpp / base.hpp by translate.py on every run",
            "xtensor view assignment semantics of set_nodes_status modelled by hand (tied by exhaustive border-mix correspondence)"]
 
-register("C07", lean_modules=["FsModel.U64", "FsProofs.Properties.C07", "FsProofs.Properties.C07Sym", "FsProofs.Properties.ClosedMesh"],
-         theorems=["Fs.Closed.rasterTopo_ok", "Fs.Closed.rasterTopo_hsym", "Fs.Closed.profile_topoOk", "Fs.Closed.profile_C06_single", "Fs.Closed.profile_C01_pflood_single",
+register("C07", lean_modules=["FsProofs.Properties.ShapesC07", "FsModel.U64", "FsProofs.Properties.C07", "FsProofs.Properties.C07Sym", "FsProofs.Properties.ClosedMesh"],
+         theorems=["Fs.Shapes.source_shape_C07", "Fs.Closed.rasterTopo_ok", "Fs.Closed.rasterTopo_hsym", "Fs.Closed.profile_topoOk", "Fs.Closed.profile_C06_single", "Fs.Closed.profile_C01_pflood_single",
                    "Fs.C07.rasterNbIdx_range", "Fs.C07.rasterNbIdx_length", "Fs.C07.rasterNbIdx_count_symm", "Fs.C07.rasterNbIdx_mem_symm", "Fs.C07.rasterNbIdx_not_self",
                    "Fs.C07.rasterNbDist_length", "Fs.C07.rasterNbDist_eq_geom", "Fs.C07.stepDist_exact", "Fs.C07.stepDist_field", "Fs.C07.rasterNb_dist_symm", "Fs.C07.rasterNb_weighted_symm",
                    "Fs.C07.profileNbIdx_range", "Fs.C07.profileNbIdx_count_symm", "Fs.C07.profileNbIdx_not_self", "Fs.C07.offs_neg_perm",
@@ -471,7 +471,7 @@ register("C07", lean_modules=["FsModel.U64", "FsProofs.Properties.C07", "FsProof
          sections=GRID_SECTIONS, nontrivial=grid_nontrivial, tags=tags_grid,
          rule="random rasters/profiles (3 connectivities, border mixes incl. looped, size-2 looped axes, anisotropic spacing, cache on/off), every accessor for every node in shuffled order with repeats; thorough adds all 4^4 border mixes x shapes; non-trivial = grid accepted and queried",
          trusted_base=GRID_TB)
-register("C17", lean_modules=['FsModel.Iter', 'FsProofs.Properties.C17'], theorems=['Fs.C17.prio_order', 'Fs.C17.paint_spec', 'Fs.C17.rasterStatus_ok_iff', 'Fs.C17.rasterStatus_error_iff', 'Fs.C17.rasterStatus_error_kind', 'Fs.C17.rasterStatus_ok', 'Fs.C17.rasterStatus_ok_distinct', 'Fs.C17.profileStatus_ok_iff', 'Fs.C17.profileStatus_error_iff', 'Fs.C17.profileStatus_ok', 'Fs.C17.sortKeys_perm', 'Fs.C17.iterFwd_eq', 'Fs.C17.iterRev_eq', 'Fs.Iter.skipFwd_stop'], gen=lambda r, t: gen_grids(r, t) + gen_grids_exhaustive(r, t), oracles=[oracle.c17],
+register("C17", lean_modules=["FsProofs.Properties.C17Mesh", "FsProofs.Properties.ShapesC17", 'FsModel.Iter', 'FsProofs.Properties.C17'], theorems=["Fs.C17Mesh.meshStatusMap_ok_iff", "Fs.C17Mesh.meshStatusMap_error_kind", "Fs.C17Mesh.meshStatusMap_ok", "Fs.C17Mesh.meshStatusMap_ok_distinct", "Fs.C17Mesh.meshStatusArr_spec", "Fs.Shapes.source_shape_C17", 'Fs.C17.prio_order', 'Fs.C17.paint_spec', 'Fs.C17.rasterStatus_ok_iff', 'Fs.C17.rasterStatus_error_iff', 'Fs.C17.rasterStatus_error_kind', 'Fs.C17.rasterStatus_ok', 'Fs.C17.rasterStatus_ok_distinct', 'Fs.C17.profileStatus_ok_iff', 'Fs.C17.profileStatus_error_iff', 'Fs.C17.profileStatus_ok', 'Fs.C17.sortKeys_perm', 'Fs.C17.iterFwd_eq', 'Fs.C17.iterRev_eq', 'Fs.Iter.skipFwd_stop'], gen=lambda r, t: gen_grids(r, t) + gen_grids_exhaustive(r, t), oracles=[oracle.c17],
          sections={"grid", "status", "iter", "base", "size"}, nontrivial=lambda si: True, tags=tags_grid,
          rule="all 4^4 raster / 4^2 profile border mixes on small shapes (exhaustive) + random grids with override maps + malformed stream (asymmetric loops, looped/out-of-range overrides); status array, iteration in both directions for every filter, default base levels",
          trusted_base=GRID_TB)
@@ -510,8 +510,8 @@ def c08_runner(P, exe, model_ok, rng, tier, replay=None):
     return res
 
 
-register("C08", lean_modules=['FsModel.Iter', 'FsProofs.Properties.C08', 'FsProofs.Properties.C07Sym', 'FsProofs.Properties.Closed'],
-         theorems=['Fs.Iter.skipFwd_log_in_range', 'Fs.Closed.raster_C08_fits', 'Fs.C08.multi_fits', 'Fs.C08.single_fits', 'Fs.C08.multi_recv_row', 'Fs.C08.multi_donors_row', 'Fs.C08.single_donors_row', 'Fs.C08.multi_orders', 'Fs.C08.single_orders',
+register("C08", lean_modules=["FsProofs.Properties.ShapesC08", 'FsModel.Iter', 'FsProofs.Properties.C08', 'FsProofs.Properties.C07Sym', 'FsProofs.Properties.Closed'],
+         theorems=["Fs.Shapes.source_shape_C08", 'Fs.Iter.skipFwd_log_in_range', 'Fs.Closed.raster_C08_fits', 'Fs.C08.multi_fits', 'Fs.C08.single_fits', 'Fs.C08.multi_recv_row', 'Fs.C08.multi_donors_row', 'Fs.C08.single_donors_row', 'Fs.C08.multi_orders', 'Fs.C08.single_orders',
                    'Fs.C08.levelOffsets_fit', 'Fs.C08.accumulate_no_write_outside', 'Fs.C08.basins_no_write_outside', 'Fs.C08.accumulate_frame', 'Fs.C08.basins_frame',
                    'Fs.C07.rasterNbIdx_range', 'Fs.C07.rasterNbIdx_length', 'Fs.C07.rasterNbIdx_count_symm'], gen=gen_c08, runner=c08_runner, oracles=[], sections=None, nontrivial=lambda si: True, tags=tags_flow, level="proof",
          rule="scenario sets of the other properties' generators (grids incl. malformed, all operator families, accumulate, basins, eroders) executed under ASan+UBSan with _GLIBCXX_ASSERTIONS and asserts enabled; every distinct (kind, file:line) report is a failure; index-logic theorems cover all sizes",
@@ -625,7 +625,7 @@ _lvl("C01", "proof",
      "END-TO-END theorem on the executed composition priority flood + single-direction router (Fs.C01.C01_pflood_singleRouter, any grid size / topology handed over by the grid, any elevations, masks and base-level sets, sequential or multi-threaded router variant; assumptions: strict-weak-order laws of the comparison, x < nextUp x, slope towards a lower neighbour above -DBL_MAX, neighbour lists in range and symmetric, base-level list duplicate-free): (1) base-level and masked nodes are their own receiver, (2) every proper step goes to an unmasked neighbour with strictly lower RETURNED elevation, (3) every node connected through unmasked neighbours to an unmasked base level reaches a base-level node after finitely many receiver steps and stops there, (4) no cycle. It rests on pflood_terminates (potential-function proof that the flood empties both queues within its fuel n+1), pflood_parent / pflood_complete (flood invariants), C04.routed_row (router scan) and C06.singleRouter_graph. Also step_wf (descent => well-founded) and tilt_descends (strict descent after the spanning-tree tilt pass). C01_pflood_multiRouter: the same for flood + multiple-direction router (every proper receiver is an unmasked neighbour with strictly lower returned elevation; a node connected to a base level is never a pit and all its receivers stay connected; 'flows to' is well-founded, no cycle, every path has fewer than n steps; every maximal path from a connected node ends at a base level, and one exists). resolve_c01_singleRouter: the same for the executed SPANNING-TREE resolver (Fs.Mst.resolve with Kruskal, carve or basic) after the single router: base-level and masked nodes stay their own receiver; the re-routed receiver table is again a forest (so the rebuilt donors/orders are valid by C06); every proper step strictly decreases the RETURNED (tilted) elevation; carve never hangs; every unmasked node whose basin is reached from the root - in particular every node connected through unmasked neighbours to an unmasked base level (resolve_c01_connected) - ends at a base-level node. Built from routeCarve_spec (path reversal), routeBasic_spec, the fold over tree edges (rerouted_forest / rerouted_base), orient_spec + orient_reached_iff (the executed orientation returns an arborescence from the root: each reached basin is the head of exactly one edge, depths increase, reached = connected to the root in the tree), kruskal_keeps_virtual, connect_basins (C15) and tilt_descends; extra assumptions: elevations above -DBL_MAX (a real pass at -DBL_MAX would tie with the virtual edges - counterexample in C01MstExample), arrays fit in memory, the weight-sorted permutation check the harness performs. For Boruvka the same conclusions hold under the two tree facts (forest, virtual edges kept) that the model driver CERTIFIES on every resolver run of either method (line cert_mst: certOk on the raw tree + all virtual edges present): resolve_c01_tree. Certificate: on every scenario the model driver runs the Lean checker checkFlow on the receivers and elevation REPORTED BY THE C++ (soundness checkFlow_sound / checkFlow_paths: accepted => terminal nodes self, strict descent to unmasked (neighbour) nodes, no pit among nodes connected to a base level, hence every maximal path ends at a base level). raster_C01_pflood_single / _multi / raster_C01_mst: Closed corollaries (Closed.lean): the topology hypotheses (neighbours in range, row width <= n_neighbors_max, symmetry with multiplicity, positive distances, slope-above-lowest on neighbour slots) are DISCHARGED for the topology `rasterTopo` the executed raster model reports, for every raster with >= 2 nodes per axis and positive spacing over any ordered field - so the statements below hold for every such raster, mask, base-level set and elevation with no hypothesis about the grid left; all their hypotheses are shown satisfiable on a concrete 3x3 instance over Q (non-vacuity).",
      "Lean 4 end-to-end theorems on the executed flood+router and spanning-tree resolver (loop invariants, potential-function termination, path-reversal / forest / arborescence proofs, composition) + bit-exact differential correspondence + reachability oracle")
 _lvl("C02", "proof",
-     "Theorems about the executed priority flood Fs.Flow.pflood (any grid size, any elevations over a linear order with strictly increasing monotone nextUp): pflood_ge_input (never below the input), pflood_fixed (bit-identical at base-level and masked nodes), pflood_ge_spill (every closed node is reached from an unmasked base level by an unmasked-neighbour path whose input elevations never exceed its filled elevation: f >= spill level), pflood_le_spill (for every such path and every bound v on the input along it, f <= v raised by n+2 floating-point increments: f <= spill + (n+2) ulps). They are obtained from the invariant proofs on the ghost-instrumented loop (Fs.UB) through an erasure theorem (run_erase, ubInit_erase: forgetting the ghost counters turns each instrumented step into the executed step). 'closed' = reached by the flood; that all unmasked-connected nodes are closed when the loop exits by itself is pflood_complete. The spanning-tree variants (Kruskal/Boruvka x basic/carve) are modelled statement by statement, compared bit for bit and checked by the independent Bellman minimax oracle (two-sided bound, agreement of all variants) - not proved. Spanning-tree variants (C02Mst*.lean, Kruskal, carve and basic): resolve_ge_input (never below the input), resolve_fixed / _self / _above (bit-identical at base-level and masked nodes, at every self-receiver, and wherever the node was already above its new receiver's final level: terrain that already drains keeps its elevation), resolve_exact_shape / resolve_chain (every raised node is exactly t floating-point increments above the INPUT elevation of the node t links down its new flow path, t + 1 <= n: 'at most one increment per grid node'), resolve_ge_spill_carve (carve: the new flow path is an unmasked-neighbour path to a base level along which the input never exceeds the node's returned elevation: >= spill level); raster_C02_mst closes them over rasters. UPPER BOUND (C02MstUpper*.lean, Kruskal, carve AND basic): resolve_c02_upper_singleRouter - for every unmasked node y, every unmasked-neighbour path from a base level to y and every bound v on the input elevations along it, the returned elevation is at most v raised by n floating-point increments, i.e. <= (spill level)+n ulps; proof: the new flow path only visits nodes whose input is <= max(f y, passes of the tree edges above y's basin) (newpath_bounded), any neighbour path crosses basin borders at pairs at least as high as the stored lowest passes (connect_basins theorems), hence the basins are joined within weight v in the basin graph and, by the bottleneck property of the Kruskal tree (C15Bottleneck) transported along the proved orientation, every tree edge above y's basin has pass <= v (low_of_path). resolve_c02_spill_level_singleRouter states lower and upper bound together for carve. Left to oracle + agreement of all variants: the basic variant's lower bound as a path statement (its receiver path is not a neighbour path) and Boruvka (certificate per run).",
+     "Theorems about the executed priority flood Fs.Flow.pflood (any grid size, any elevations over a linear order with strictly increasing monotone nextUp): pflood_ge_input (never below the input), pflood_fixed (bit-identical at base-level and masked nodes), pflood_ge_spill (every closed node is reached from an unmasked base level by an unmasked-neighbour path whose input elevations never exceed its filled elevation: f >= spill level), pflood_le_spill (for every such path and every bound v on the input along it, f <= v raised by n+2 floating-point increments: f <= spill + (n+2) ulps). They are obtained from the invariant proofs on the ghost-instrumented loop (Fs.UB) through an erasure theorem (run_erase, ubInit_erase: forgetting the ghost counters turns each instrumented step into the executed step). 'closed' = reached by the flood; that all unmasked-connected nodes are closed when the loop exits by itself is pflood_complete. The spanning-tree variants (Kruskal/Boruvka x basic/carve) are modelled statement by statement, compared bit for bit and checked by the independent Bellman minimax oracle (two-sided bound, agreement of all variants) - not proved. Spanning-tree variants (C02Mst*.lean, Kruskal, carve and basic): resolve_ge_input (never below the input), resolve_fixed / _self / _above (bit-identical at base-level and masked nodes, at every self-receiver, and wherever the node was already above its new receiver's final level: terrain that already drains keeps its elevation), resolve_exact_shape / resolve_chain (every raised node is exactly t floating-point increments above the INPUT elevation of the node t links down its new flow path, t + 1 <= n: 'at most one increment per grid node'), resolve_ge_spill_carve (carve: the new flow path is an unmasked-neighbour path to a base level along which the input never exceeds the node's returned elevation: >= spill level); raster_C02_mst closes them over rasters. UPPER BOUND (C02MstUpper*.lean, Kruskal, carve AND basic): resolve_c02_upper_singleRouter - for every unmasked node y, every unmasked-neighbour path from a base level to y and every bound v on the input elevations along it, the returned elevation is at most v raised by n floating-point increments, i.e. <= (spill level)+n ulps; proof: the new flow path only visits nodes whose input is <= max(f y, passes of the tree edges above y's basin) (newpath_bounded), any neighbour path crosses basin borders at pairs at least as high as the stored lowest passes (connect_basins theorems), hence the basins are joined within weight v in the basin graph and, by the bottleneck property of the Kruskal tree (C15Bottleneck) transported along the proved orientation, every tree edge above y's basin has pass <= v (low_of_path). resolve_c02_spill_level_singleRouter states lower and upper bound together for carve. LOWER BOUND FOR BASIC (C02MstBasic*.lean): resolve_ge_spill_basic - for basic the new receiver path leaves the neighbour relation (the pit jumps to the pass node), so the witness is a different path: [witness of the outflow pass node] ++ inflow pass node ++ [old receiver path down to the pit] ++ [old path from the pit up to y, reversed], all of whose INPUT elevations are <= the returned elevation of y (induction over the depth of the basin in the oriented tree; fold_basic2 records which branch routeBasic took); resolve_ge_spill (both methods), resolve_c02_spill_level_singleRouter_any (lower and upper bound together, carve AND basic) and its closed forms raster_/mesh_/profile_C02_mst_spill_level_any (ClosedBasic.lean) with non-vacuity instances. Left to per-run certificate + oracle + agreement of all variants: Boruvka.",
      "Lean 4 loop-invariant proofs (ghost-instrumented flood + erasure to the executed definitions) + bit-exact correspondence + independent minimax-spill oracle")
 _lvl("C03", "proof",
      "Theorems about the executed definitions Fs.Flow.accStep/accumulate instantiated over an arbitrary field: accStep_get, sweep_recurrence / accumulate_recurrence (for every graph and every sweep order - no node after one of its proper receivers, which C06 proves for the executed orders - every entry equals source*area plus the accumulated values of its donors weighted by their partition fractions; any size, single or multiple receivers), sweep_conservation / accumulate_conservation (if every non-terminal node's weights sum to one and it is not its own receiver - C05 - the sum over terminal nodes equals the source integrated over the grid), contrib_nonneg (non-negative source and weights => value >= local contribution). The Float instance of the same definitions is compared bit for bit with all four C++ overloads (which must agree with each other); rounding is covered by the exact-rational oracle with an error bound. multi_/single_accumulate_recurrence, _conservation, _nonneg (C03E2E.lean): the recurrence, conservation over terminal nodes and the lower bound for non-negative sources hold for the graphs the executed routers build, with only topology hypotheses left; raster_C03_*_conservation: Closed corollaries (Closed.lean): the topology hypotheses (neighbours in range, row width <= n_neighbors_max, symmetry with multiplicity, positive distances, slope-above-lowest on neighbour slots) are DISCHARGED for the topology `rasterTopo` the executed raster model reports, for every raster with >= 2 nodes per axis and positive spacing over any ordered field - so the statements below hold for every such raster, mask, base-level set and elevation with no hypothesis about the grid left; all their hypotheses are shown satisfiable on a concrete 3x3 instance over Q (non-vacuity).",
@@ -649,7 +649,7 @@ _lvl("C09", "proof",
      "callUpdate_history_free / update_eq_fresh / runOps_history_free (C09Pure.lean): the model's update_routes threads the previous call's graph tables and snapshots into the next call (as the C++ object does), and for every operator sequence the constructor accepts the new graph, elevation, elevation snapshots, every graph snapshot the sequence saves and every printed line are PROVED independent of what the previous calls left - whatever history, same result as on a fresh graph (an unaccepted sequence such as a lone sink resolver would return the left-over graph: example in the file). Beyond that the model's update_routes is a function of (operators with their parameters, topology, mask, base levels, elevation); the only input through which the history of the C++ object can reach it is the iteration order of the hash set of base levels, handed over by the harness as a list. Theorems on the executed definitions: pfInit_perm / pflood_perm - for any two base-level lists that are permutations of each other the flood starts from the same state (queue order included, thanks to the (elevation, index) ordering of the queue) and returns the same elevations, for every grid and elevation field over a linear order; all other operators use the base levels only through membership. Correspondence: random histories on one object vs a fresh object vs the model, every observable bit for bit, input array never written.",
      "Lean 4 permutation-invariance proof on the executed flood initialisation + history-vs-fresh differential testing against the pure model")
 _lvl("C17", "proof",
-     "Theorems on the executed grid model (constants regenerated from the source): prio_order (fixed value > fixed gradient > looped > core, decide over the regenerated precedences), paint_spec (for every raster with >= 2 nodes per axis: core strictly inside, the border's status on each non-corner border node, at each corner the one of the two meeting statuses with the larger precedence), rasterStatus_ok_iff / _error_iff / _error_kind / rasterStatus_ok / rasterStatus_ok_distinct (construction succeeds iff looped borders are symmetric and no override is out of range, looped, or on a looped node; which error kind the first offending entry yields; otherwise the array is the painted array with the overrides applied and looped appears exactly on the looped borders), the same for the profile grid (profileStatus_*), sortKeys_perm / sorted (std::map order), iterFwd_eq / iterRev_eq (iteration filtered by any predicate yields exactly (range size).filter p, resp. its reverse, for every size and predicate; built on skipFwd_stop). Default base levels = fixed-value nodes is a definition of the driver. Compared exhaustively over all 4^4 / 4^2 border mixes on small shapes, plus malformed override maps with error kinds, iteration in both directions for every filter.",
+     "Theorems on the executed grid model (constants regenerated from the source): prio_order (fixed value > fixed gradient > looped > core, decide over the regenerated precedences), paint_spec (for every raster with >= 2 nodes per axis: core strictly inside, the border's status on each non-corner border node, at each corner the one of the two meeting statuses with the larger precedence), rasterStatus_ok_iff / _error_iff / _error_kind / rasterStatus_ok / rasterStatus_ok_distinct (construction succeeds iff looped borders are symmetric and no override is out of range, looped, or on a looped node; which error kind the first offending entry yields; otherwise the array is the painted array with the overrides applied and looped appears exactly on the looped borders), the same for the profile grid (profileStatus_*), sortKeys_perm / sorted (std::map order), iterFwd_eq / iterRev_eq (iteration filtered by any predicate yields exactly (range size).filter p, resp. its reverse, for every size and predicate; built on skipFwd_stop). Triangular mesh (C17Mesh.lean, on the executed Fs.MeshGrid.statusMap / statusArr): meshStatusMap_ok_iff (accepted iff no entry is looped or out of range), meshStatusMap_error_kind (the first offending entry decides; looped is tested before the range), meshStatusMap_ok / _ok_distinct (empty map: boundary nodes fixed value, others core; otherwise every node core except the given entries, last entry wins; a mesh never has a looped node), meshStatusArr_spec (array accepted iff its length is the number of nodes, then copied). Default base levels = fixed-value nodes is a definition of the driver. Compared exhaustively over all 4^4 / 4^2 border mixes on small shapes, plus malformed override maps with error kinds, iteration in both directions for every filter.",
      "Lean 4 proofs on the executed status/iteration model (omega, decide over regenerated constants, list induction) + exhaustive border-mix correspondence")
 _lvl("C19", "proof",
      "END-TO-END theorem on the executed Fs.Flow.basins over any single-direction graph assembled from a receiver forest (C06.SingleGraph: router output or spanning-tree resolver output) whose unmasked nodes never drain into masked ones (basins_spec): masked nodes get the reserved label; every unmasked node has the label of its receiver; the outlets are exactly the unmasked self-receivers, without duplicates, numbered consecutively from zero in bottom-up order; every unmasked node's label is the index of the outlet it drains to (two unmasked nodes share a label iff they drain to the same outlet; number of distinct labels = number of unmasked outlets); pits = outlets that are not base levels. Built on run_block / block_labels_agree and the block structure of the bottom-up order (dfs_blocks). Certificate: the model driver runs checkBasins on the labels / outlets / pits REPORTED BY THE C++ against the tables it reported at the last update (soundness checkBasins_sound, checkBasins_outlets, checkBasins_drain).",
@@ -700,8 +700,8 @@ import random as random_mod  # noqa: E402
 
 register("C20", gen=gen_c20, runner=c20_runner, oracles=[oracle.c20], nontrivial=c20_nontrivial,
          sections={"graph", "single_flow", "rwidth", "dwidth", "gkeys", "ekeys", "snapmeta", "same_array", "update", "input_unchanged"},
-         lean_modules=["FsProofs.Properties.C20"],
-         theorems=["Fs.OpSeq.accepts_iff", "Fs.OpSeq.effects", "Fs.OpSeq.fold_accepts_iff", "Fs.Driver.flagsOf_generated", "Fs.Driver.generated_table_examples"],
+         lean_modules=["FsProofs.Properties.ShapesC20", "FsProofs.Properties.C20"],
+         theorems=["Fs.Shapes.source_shape_C20", "Fs.OpSeq.accepts_iff", "Fs.OpSeq.effects", "Fs.OpSeq.fold_accepts_iff", "Fs.Driver.flagsOf_generated", "Fs.Driver.generated_table_examples"],
          tags=lambda si: ["accepted" if c20_nontrivial(si) else "refused"] + tags_flow(si)[:1],
          rule="ALL sequences of length 1..4 over {single, single(2 threads), multi, pflood, mst, graph snapshot, elevation snapshot} (2800), each on a grid (quick: rotating over raster-queen / profile / looped cache-less rook raster / mesh; thorough: on all four), construction + update; non-trivial = accepted sequence",
          trusted_base=["operator flag table regenerated from the static constexpr members of the operator classes by translate.py", "acceptance logic (add_operator/update_snapshots/constructor checks) modelled by hand as Fs.OpSeq.add/build and pattern-checked by translate.py; tied by exhaustive correspondence over all sequences <= 4"])
@@ -783,8 +783,8 @@ def has_snapshot_tables(si):
 
 register("C16", gen=gen_snapshots, oracles=[oracle.c16], nontrivial=has_snapshot_tables, tags=tags_flow,
          sections={"update", "elev", "acc", "acc_overloads_agree", "basins", "outlets", "pits", "set_mask", "set_base", "snap_update", "snapmeta", "gkeys", "ekeys"} | GRAPH_SECTIONS | {"esnap"},
-         lean_modules=["FsProofs.Properties.C16"],
-         theorems=["Fs.Driver.snapshot_eq_prefix", "Fs.Driver.snapshot_eq_prefix_multi", "Fs.Driver.snapCopy_single", "Fs.Driver.snapCopy_multi",
+         lean_modules=["FsProofs.Properties.ShapesC16", "FsProofs.Properties.C16"],
+         theorems=["Fs.Shapes.source_shape_C16", "Fs.Driver.snapshot_eq_prefix", "Fs.Driver.snapshot_eq_prefix_multi", "Fs.Driver.snapCopy_single", "Fs.Driver.snapCopy_multi",
                    "Fs.Driver.cover_single", "Fs.Driver.cover_multi", "Fs.Driver.snapMask_faithful", "Fs.Driver.snapBase_faithful",
                    "Fs.Driver.snapshot_transparent", "Fs.Driver.snapshot_mutators_refused", "Fs.Driver.mstHook_frame"],
          rule="operator sequences (10 base families x resolver variants) with graph/elevation snapshots at random positions, 1-3 updates with changing mask/base levels/elevation, accumulate and basins on every snapshot after every update, mutators on snapshot graphs; oracle = separately constructed prefix graph in the real code; non-trivial = snapshot tables were produced",
@@ -892,10 +892,12 @@ def gen_meshes(rng, tier):
         # malformed status inputs
         if g.status is not None and rng.random() < 0.3:
             if isinstance(g.status, dict):
-                if rng.random() < 0.5:
+                r2 = rng.random()
+                if r2 < 0.6:
                     g.status[rng.randrange(len(g.pts))] = "l"
-                else:
-                    g.status[len(g.pts) + rng.randint(0, 3)] = rng.choice("cvg")
+                if r2 > 0.4:
+                    # (both at once for 0.4 < r2 < 0.6: the first offending entry in key order decides)
+                    g.status[len(g.pts) + rng.randint(0, 3)] = rng.choice("cvgl")
             else:
                 g.status = g.status[:-1] if rng.random() < 0.5 else g.status + ["c"]
         # random relabelling of the nodes (hash order / vertex numbering independence)
@@ -937,8 +939,8 @@ def mesh_tags(si):
 
 register("C18", gen=gen_meshes, oracles=[oracle.c18], nontrivial=grid_nontrivial, tags=mesh_tags,
          sections={"grid", "size", "status", "area", "area_views_agree", "q", "iter", "base"},
-         lean_modules=["FsModel.Mesh", "FsProofs.Area", "FsProofs.Properties.C18", "FsProofs.Properties.ClosedMesh"],
-         theorems=["Fs.Closed.meshTopo_ok", "Fs.Closed.meshTopo_hsym", "Fs.Closed.meshTopo_dist_pos", "Fs.Closed.mesh_C06_single", "Fs.Closed.mesh_C08_fits", "Fs.Closed.mesh_C01_pflood_single", "Fs.Closed.mesh_C01_mst", "Fs.C18.mem_nbrs", "Fs.C18.nbrs_symm", "Fs.C18.nbrs_nodup", "Fs.C18.count_spec", "Fs.C18.isBoundary_iff", "Fs.C18.isBoundary_iff_tri", "Fs.C18.statusDefault_spec",
+         lean_modules=["FsProofs.Properties.ShapesC18", "FsModel.Mesh", "FsProofs.Area", "FsProofs.Properties.C18", "FsProofs.Properties.ClosedMesh"],
+         theorems=["Fs.Shapes.source_shape_C18", "Fs.Closed.meshTopo_ok", "Fs.Closed.meshTopo_hsym", "Fs.Closed.meshTopo_dist_pos", "Fs.Closed.mesh_C06_single", "Fs.Closed.mesh_C08_fits", "Fs.Closed.mesh_C01_pflood_single", "Fs.Closed.mesh_C01_mst", "Fs.C18.mem_nbrs", "Fs.C18.nbrs_symm", "Fs.C18.nbrs_nodup", "Fs.C18.count_spec", "Fs.C18.isBoundary_iff", "Fs.C18.isBoundary_iff_tri", "Fs.C18.statusDefault_spec",
                    "Fs.C18.binAreas_sum", "Fs.C18.areas_sum", "Fs.C18.areas_sum_geom", "Fs.C18.areas_sum_exactSqrt", "Fs.C18.dist_symm", "Fs.C18.dist_withSqrt",
                    "Fs.Mesh.edgeMap_spec", "Fs.Mesh.insertEdge_unique", "tri_area_partition"],
          rule="jittered / flipped lattices with holes, isolated nodes, random vertex order inside triangles and random node relabelling; default, map and array status incl. malformed ones (looped entry, out-of-range index, wrong length); neighbours compared as index-sorted lists, status and areas bit for bit; oracle recomputes edges, boundary and exact circumcentric shares in rationals; non-trivial = mesh accepted and queried",
@@ -1217,8 +1219,8 @@ def c11_runner(P, exe, model_ok, rng, tier, replay=None):
 register("C11", gen=gen_pool, runner=c11_runner, oracles=[oracle.c11], cause=oracle.c11_cause, watchdog=8,
          nontrivial=lambda si: any(c.cmd == "pool" and int(c.toks[1]) >= 2 for c in si.calls) or any(c.cmd == "blocks" for c in si.calls),
          tags=pool_tags, sections={"blocks", "pool_done", "pause_paused", "resume_paused", "resize_size", "stop_stopped", "grid"} | {"run%d" % i for i in range(12)} | {"run%d_once" % i for i in range(12)},
-         lean_modules=["FsProofs.Properties.C11"],
-         theorems=["Fs.C11.blocks_exact", "Fs.C11.blocks_empty", "Fs.C11.index_in_unique_block", "Fs.C11.source_notifies_under_mutex",
+         lean_modules=["FsProofs.Properties.ShapesC11", "FsProofs.Properties.C11"],
+         theorems=["Fs.Shapes.source_shape_C11", "Fs.C11.blocks_exact", "Fs.C11.blocks_empty", "Fs.C11.index_in_unique_block", "Fs.C11.source_notifies_under_mutex",
                    "Fs.C11.source_publication", "Fs.C11.source_rejects_lost_wakeup_schedule", "Fs.C11.no_stuck_state", "Fs.Hb.publication_iff",
                    "Fs.C11.source_protocol_shape", "Fs.C11.exactly_once", "Fs.C11.no_stuck_state4", "Fs.C11.no_infinite_run",
                    "Fs.Pool4.inv_step", "Fs.Pool4.at_most_once_in_flight", "Fs.Pool4.no_stranded_flag", "Fs.Pool4.between_calls", "Fs.Pool4.terminates"],
@@ -1329,8 +1331,8 @@ register("C10", gen=gen_parallel, runner=c10_runner, oracles=[oracle.c10], watch
          nontrivial=lambda si: sum(1 for c in si.calls if c.cmd == "graph") >= 2 and any(c.cmd == "kernel" and int(c.toks[2]) > 1 and "kernel" in c.O for c in si.calls),
          tags=par_tags, sections={"update", "elev", "acc", "acc_overloads_agree", "basins", "outlets", "pits", "kernel", "kvisits", "graph"} | GRAPH_SECTIONS,
          rule="cached raster, cache-less raster, profile and mesh grids; operator families with a single router (plain, flooded, spanning-tree resolved, followed by a multi router); every scenario runs the same 1-3 updates (+ accumulate, basins, kernels) first with sequential routers, then with 2..16 threads; kernels applied sequentially and with thread counts 2..16 x minimum block sizes x minimum level sizes in breadth-first / any / depth-first order; everything under ASan and again under the thread sanitizer; non-trivial = both graphs ran and a multi-threaded kernel returned",
-         lean_modules=["FsProofs.Properties.ClosedMore", "FsProofs.Properties.C10", "FsProofs.Properties.C10Kernel"],
-         theorems=["Fs.Closed.raster_C10_kernel_single", "Fs.Closed.raster_C10_kernel_multi", "Fs.Closed.mesh_C10_kernel_single", "Fs.C10.kernel_par_eq_seq", "Fs.C10.multi_kernel_par_eq_seq", "Fs.C10.single_kernel_par_eq_seq", "Fs.C10.level_nonInterfering", "Fs.C10.level_par_eq_seq", "Fs.C10.kernel_par_exists", "Fs.C10.blockSlices_global",
+         lean_modules=["FsProofs.Properties.ShapesC10", "FsProofs.Properties.ClosedMore", "FsProofs.Properties.C10", "FsProofs.Properties.C10Kernel"],
+         theorems=["Fs.Shapes.source_shape_C10", "Fs.Closed.raster_C10_kernel_single", "Fs.Closed.raster_C10_kernel_multi", "Fs.Closed.mesh_C10_kernel_single", "Fs.C10.kernel_par_eq_seq", "Fs.C10.multi_kernel_par_eq_seq", "Fs.C10.single_kernel_par_eq_seq", "Fs.C10.level_nonInterfering", "Fs.C10.level_par_eq_seq", "Fs.C10.kernel_par_exists", "Fs.C10.blockSlices_global",
                    "Fs.C10.par_rows_eq_seq", "Fs.C10.par_tables_eq_seq", "Fs.C10.source_nocache_per_thread", "Fs.Commute.schedules_agree", "Fs.C11.index_in_unique_block", "Fs.C11.no_stuck_state", "Fs.C11.exactly_once"],
          trusted_base=FLOW_TB + ["footprints of the per-node router task (own receiver row, own neighbour buffer) are read off the source by hand; the storage class of the pass-through neighbour buffer is regenerated by translate.py",
                                  "thread interleavings are explored by the OS scheduler under TSan/ASan and by repeated runs, not enumerated"])
